@@ -1,4 +1,4 @@
-import RlModel.Lemmas.StoreInv
+import RlModel.Lemmas.StoreSim
 /-!
 # C03 — Acknowledged changes survive a clean shutdown and reopen
 
@@ -178,11 +178,13 @@ theorem dv_file_reuse_regression :
 /-! ## Histories (the invariant behind `ReopenHyp`) -/
 
 /-- **Every guarded history reaches a state whose log replays to it** (`Inv`: the manifest replays
-to the live catalog / tables / row-sets / DVs, the files exist, ids are fresh), by induction over
-histories of CREATE/DROP TABLE, INSERT (any partition into row-sets), DELETE, compaction passes
-(any plan), vacuum passes and shutdown+reopen cycles in any order.  `GoodHist` evaluates `Guard` in
-the state each statement is issued in: no view/index creation, no NULL into NOT NULL.  (The DROP,
-reopen and DELETE guards of earlier versions are gone with the repository fixes.) -/
+to the live TABLE catalog / tables / row-sets / DVs, the files exist, ids are fresh), by induction
+over histories of CREATE/DROP TABLE, CREATE VIEW, CREATE INDEX, DROP VIEW, INSERT (any partition
+into row-sets; NULL into NOT NULL is rejected), DELETE, compaction passes (any plan), vacuum passes
+and shutdown+reopen cycles in any order.  `GoodHist` evaluates `Guard` in the state each statement is
+issued in, and `Guard` is the exact one: only CREATE TABLE has a condition - replay's id counter
+equals the live id counter, i.e. no view or index took an id since the last CREATE TABLE / reopen
+(`guard_exact`: without it the log no longer replays to the live state). -/
 theorem history_reaches_invariant (h : List Op) (g : GoodHist Store.init h) :
     ∃ s, run (.up Store.init) h = .up s ∧ Inv s :=
   hist_inv h Store.init inv_init g
@@ -221,6 +223,80 @@ theorem ids_fresh_full (h : List Op) (g : GoodHist Store.init h) :
 theorem reopen_accepts_ops (s : Store) (inv : Inv s) (h : List Op) (g : GoodHist s (.reopen :: h)) :
     ∃ s', run (.up s) (.reopen :: h) = .up s' ∧ Inv s' :=
   hist_inv (.reopen :: h) s inv g
+
+/-! ## The exact guard (views and indexes) -/
+
+/-- **the guard is necessary**: a CREATE TABLE that succeeds while the counters are NOT aligned
+leaves a log that does not replay to the live catalog (the table's records carry an id the replay
+gives to nobody or to another table) - this is `reopen:view-shifts-table-id`. -/
+theorem guard_exact (s : Store) (inv : Inv s) (d : TableDef) (id : Nat) (c' : Catalog)
+    (h : s.cat.add d.name .table = some (id, c')) (hg : ¬ Guard s (.create d)) :
+    ¬ Sync (s.createTable d).1 := by
+  intro sy
+  apply hg
+  show (bootFold (replay s.manifest)).cat.nextId = s.cat.nextId
+  obtain ⟨f1, _, _, _, _, _, _, _, _, f10, _⟩ := createTable_fields s d id c' h
+  obtain ⟨_, _, a3⟩ := add_spec _ _ _ _ _ h
+  have hok := sy.ok
+  have hcat := sy.cat
+  rw [f10, (sync_commit s.manifest [Rec.createTable d] inv.sync.closed (by intro r hr; simp at hr; subst hr; rfl)).2] at hok hcat
+  rw [f1, a3] at hcat
+  simp only [List.foldl_cons, List.foldl_nil] at hok hcat
+  unfold Boot.step at hok hcat
+  simp only [inv.sync.ok, Option.isSome_none, Bool.false_eq_true, if_false] at hok hcat
+  cases hadd : (bootFold (replay s.manifest)).cat.add d.name .table with
+  | none => simp [hadd] at hok
+  | some r2 =>
+    obtain ⟨id2, c2⟩ := r2
+    obtain ⟨_, _, b3⟩ := add_spec _ _ _ _ _ hadd
+    simp only [hadd, b3, List.filter_append, inv.sync.cat] at hcat
+    have := List.append_cancel_left hcat
+    simpa using this
+
+/-- **the guard is sufficient, and views/indexes need none**: CREATE VIEW, CREATE INDEX, DROP (table
+or view), INSERT, DELETE, compaction, vacuum and reopen keep the invariant unconditionally; CREATE
+TABLE keeps it when the counters are aligned. -/
+theorem guard_sufficient (s : Store) (inv : Inv s) (op : Op) (g : Guard s op) :
+    ∃ s', (stepUp s op).1 = .up s' ∧ Inv s' :=
+  step_inv s inv op g
+
+/-- **reopen re-aligns**: after a reopen every CREATE TABLE is allowed again, whatever views and
+indexes existed before (they are forgotten - `reopen:view-not-persisted` - and so are their ids). -/
+theorem reopen_realigns (s : Store) (inv : Inv s) :
+    ∃ s', s.reopen = .ok s' ∧ Inv s' ∧ ∀ d, Guard s' (.create d) :=
+  let ⟨s', r1, r2, _, _, _, _, hal⟩ := reopen_inv s inv
+  ⟨s', r1, r2, fun _ => hal⟩
+
+/-- **table ids are stable across reopen** in every state satisfying the invariant: each table name
+resolves to the same id, definition and rows; exactly the TABLE entries of the catalog survive. -/
+theorem table_ids_stable_across_reopen (s : Store) (inv : Inv s) :
+    ∃ s', s.reopen = .ok s' ∧ (∀ n, s'.tableId? n = s.tableId? n) ∧
+      s'.cat.entries = s.cat.entries.filter (·.kind == Kind.table) ∧ s'.tables = s.tables ∧
+      ∀ t, s'.scan t = s.scan t :=
+  let ⟨s', r1, _, _, hent, ht, hsc, _⟩ := reopen_inv s inv
+  ⟨s', r1, tableId?_of_sync hent inv.namesNodup, hent, ht, hsc⟩
+
+/-- **without views and indexes the guard is free**: every history of the view-free fragment is
+guarded, hence reaches the invariant and reopens to the same tables with the same ids - "table ids
+are stable across reopen when no view / index was created". -/
+theorem view_free_histories_guarded (h : List Op) (hv : h.all Op.noView = true) : GoodHist Store.init h :=
+  goodHist_of_noView h Store.init inv_init aligned_init hv
+
+theorem view_free_history_reopens (h : List Op) (hv : h.all Op.noView = true) :
+    ∃ s s', run (.up Store.init) h = .up s ∧ s.reopen = .ok s' ∧ Inv s' ∧
+      (∀ n, s'.tableId? n = s.tableId? n) ∧ ∀ n, s'.abs n = s.abs n := by
+  obtain ⟨s, hs, inv⟩ := hist_inv h Store.init inv_init (view_free_histories_guarded h hv)
+  obtain ⟨s', r1, r2, habs, hent, _, _, _⟩ := reopen_inv s inv
+  exact ⟨s, s', hs, r1, r2, tableId?_of_sync hent inv.namesNodup, habs⟩
+
+/-- a view, then a reopen, then a table: allowed (the reopen re-aligned the counters) -/
+example : GoodHist Store.init [.create tA, .createView "v", .createIndex "i" "a", .insert "a" [[[.i32 1]]],
+    .drop "v", .reopen, .create tB, .insert "b" [[[.i32 2]]], .reopen] := by decide
+/-- a view after the last table: allowed -/
+example : GoodHist Store.init [.create tA, .create tB, .createView "v", .insert "b" [[[.i32 1]]], .reopen] := by decide
+/-- a table right after a view: rejected, and `viewWitness` shows the reopen then fails -/
+example : ¬ GoodHist Store.init [.create tA, .createView "v", .create tB] := by decide
+example : Guard Store.init (.create tA) := by decide
 
 example : GoodHist Store.init ([.create tA, .insert "a" [[[.i32 1]], [[.i32 2]]], .compact [(0, [0, 1])],
     .delete "a" (fun r => r == [.i32 1]), .reopen, .vacuum, .drop "a", .create tA, .insert "a" [[[.null]]]] ++ [.reopen]) := by
